@@ -87,11 +87,11 @@ def parse_contracts(path):
             if not m: raise LostAnchor('%s:%d bad @closure_wrap' % (path, ln))
             hint = [(m.group(1), m.group(2)), 'wrap', []]
             cur.closure_specs.append(hint); section = None
-        elif line.startswith('@subst '):
+        elif line.startswith('@subst ') or line.startswith('@subst_all '):
             # @subst <rule> "<text as it stands (white space insensitive, exactly one occurrence)>" => "<replacement>"
-            m = re.match(r'@subst (\w+) "(.*)" => "(.*)"$', line)
+            m = re.match(r'@subst(_all)? (\w+) "(.*)" => "(.*)"$', line)
             if not m: raise LostAnchor('%s:%d bad @subst' % (path, ln))
-            cur.substs.append((m.group(1), m.group(2), m.group(3)))
+            cur.substs.append((m.group(2), m.group(3), m.group(4), bool(m.group(1))))
             section = None; hint = None
         elif line == '@end':
             cur = None; section = None; hint = None
@@ -318,12 +318,13 @@ def insert_loop_contracts(fn, body, contract, out_clause_sink):
 def apply_substs(fn, body, contract, log):
     """@subst: the text must occur exactly once (white space insensitive); it is replaced verbatim. Used for what a ghost
     insertion cannot express: a closure parameter's type (X12) and the eta-expansion `Some` -> `|x| Some(x)` (X16)."""
-    for rule, old, new in contract.substs:
+    for rule, old, new, every in contract.substs:
         rx = re.compile(r'\s*'.join(re.escape(tok) for tok in re.findall(r'\w+|[^\w\s]', old)))
         ms = list(rx.finditer(body))
-        if len(ms) != 1:
+        if (len(ms) != 1 and not every) or not ms:
             raise LostAnchor('%s: @subst anchor %r occurs %d times' % (fn, old, len(ms)))
-        body = body[:ms[0].start()] + new + body[ms[0].end():]
+        for m in reversed(ms):      # @subst_all: every occurrence (at least one)
+            body = body[:m.start()] + new + body[m.end():]
         log.append({'rule': rule, 'fn': fn, 'what': '%r -> %r' % (old, new)})
     return body
 
